@@ -86,6 +86,8 @@ def _product(vm, s, items):
                 if gg is FALSE or AND(s.guard, gg) is FALSE:
                     continue
                 nxt.append((gg, pre + [x]))
+        if len(nxt) > 128 and vm.use_solver:
+            nxt = [(g, pre) for g, pre in nxt if vm.feasible(AND(s.guard, s.cg, g))]
         if len(nxt) > MAX_COMBOS:
             raise Unsupported("too many alternatives in native call")
         outs = nxt
